@@ -269,7 +269,148 @@ pub fn exec(line: &str) -> String {
         },
         "pr" => run_pr(t[1].parse().unwrap(), unhex(t[2]).unwrap(), &t[3..]),
         "crc" => impl_crc(&unhex(t[1]).unwrap()).to_string(),
+        "dm" => run_dm(&t),
         _ => "BADCASE".into(),
+    }
+}
+
+pub fn dm_logical(pages: usize, seed: usize) -> Vec<u8> {
+    let mut d = gen_data(pages * 1020, seed);
+    d[40..48].copy_from_slice(&1024u64.to_le_bytes());
+    d
+}
+
+/// parse `pos:xx,pos:xx` alterations
+pub fn parse_alter(spec: &str) -> Vec<(usize, u8)> {
+    if spec == "-" {
+        return vec![];
+    }
+    spec.split(',').map(|it| {
+        let (p, m) = it.split_once(':').unwrap();
+        (p.parse().unwrap(), u8::from_str_radix(m, 16).unwrap())
+    }).collect()
+}
+
+pub fn dm_device(t: &[&str]) -> (Vec<u8>, Vec<u8>) {
+    let pages: usize = t[1].parse().unwrap();
+    let seed: usize = t[2].parse().unwrap();
+    let orig = ref_pages(&dm_logical(pages, seed));
+    let mut dev = orig.clone();
+    for (p, m) in parse_alter(t[3]) {
+        dev[p] ^= m;
+    }
+    (orig, dev)
+}
+
+fn run_dm(t: &[&str]) -> String {
+    let (_, dev) = dm_device(t);
+    let v = match guarded(|| e57::E57Reader::validate_crc(SimDev::new(dev.clone()))) {
+        Ok(Ok(ps)) => format!("V{ps}"),
+        Ok(Err(_)) => "Verr".into(),
+        Err(_) => "VPANIC".into(),
+    };
+    format!("{} {}", v, run_pr(1024, dev, &t[4..]))
+}
+
+/// C07 oracle on one damage case: no data from a corrupt page; small alterations are detected;
+/// validate_crc fails exactly when some page is invalid
+fn oracle_dm(sink: &mut Sink, line: &str) {
+    let t: Vec<&str> = line.split_whitespace().collect();
+    let (orig, dev) = dm_device(&t);
+    sink.oracle_evals += 1;
+    let alter = parse_alter(t[3]);
+    let npages = dev.len() / 1024;
+    let valid: Vec<bool> = (0..npages).map(|p| ref_crc32c(&dev[p * 1024..p * 1024 + 1020]).to_be_bytes() == dev[p * 1024 + 1020..p * 1024 + 1024]).collect();
+    let altered: Vec<bool> = (0..npages).map(|p| dev[p * 1024..(p + 1) * 1024] != orig[p * 1024..(p + 1) * 1024]).collect();
+    // classify the alteration of each page: flipped bits, burst span in the CRC's bit order (LSB first)
+    for p in 0..npages {
+        if !altered[p] {
+            continue;
+        }
+        let mut bits: Vec<usize> = vec![];
+        for i in 0..1024 {
+            let x = dev[p * 1024 + i] ^ orig[p * 1024 + i];
+            for b in 0..8 {
+                if (x >> b) & 1 == 1 {
+                    bits.push(i * 8 + b);
+                }
+            }
+        }
+        let span = bits.last().unwrap() - bits[0] + 1;
+        let straddles = bits[0] < 1020 * 8 && *bits.last().unwrap() >= 1020 * 8;
+        let small = bits.len() <= 3 || (span <= 32 && !straddles);
+        if valid[p] {
+            if small {
+                sink.fail("C07", "crc/small-alteration-undetected", line, &format!("page {p}: {} flipped bits (burst span {span}) leave the checksum valid", bits.len()));
+            } else if span <= 32 && straddles {
+                sink.fail("C07", "crc/burst-straddling-undetected", line, &format!("page {p}: a {span}-bit burst straddling payload end and the big-endian checksum leaves the page valid"));
+            }
+        }
+    }
+    let out = run_dm(&t);
+    let toks: Vec<&str> = out.split(' ').collect();
+    let any_invalid = valid.iter().any(|v| !v);
+    if toks[0] == "VPANIC" {
+        sink.fail("C08", "reader/panic/validate_crc", line, "validate_crc panicked");
+    } else if (toks[0] == "Verr") != any_invalid {
+        sink.fail("C07", "crc/validate-verdict", line, &format!("validate_crc = {} but pages valid = {:?}", toks[0], valid));
+    }
+    if toks.get(1) != Some(&"ok") {
+        return;
+    }
+    // replay the ops, tracking the logical cursor; every byte handed out must come from a valid page
+    let logical: Vec<u8> = dev.chunks(1024).flat_map(|p| p[..1020].to_vec()).collect();
+    let mut cur: Option<usize> = Some(0);
+    for (k, op) in t[4..].iter().enumerate() {
+        let got = toks.get(k + 2).copied().unwrap_or("<missing>");
+        if got == "PANIC" {
+            sink.fail("C08", "reader/panic/page-read", line, &format!("step {k} panicked"));
+            return;
+        }
+        if *op == "a" {
+            if let Some(c) = cur {
+                if got == "." && c % 4 != 0 {
+                    cur = Some(c + 4 - c % 4);
+                }
+            }
+        } else if let Some(p) = op.strip_prefix('s') {
+            let p: usize = p.parse().unwrap();
+            if got != "err" {
+                if p % 1024 >= 1020 {
+                    cur = None;
+                } else {
+                    cur = Some(p - 4 * (p / 1024));
+                }
+            }
+        } else if op.starts_with('r') || op.starts_with('x') {
+            if got == "err" {
+                if op.starts_with('x') {
+                    // the cursor may have advanced over valid pages before the failure
+                    cur = None;
+                }
+                // a read must only fail on an invalid page (or beyond the end for read_exact)
+                if let (Some(c), true) = (cur, op.starts_with('r')) {
+                    if c / 1020 < npages && valid[c / 1020] {
+                        sink.fail("C07", "pages/read-fails-on-valid-page", line, &format!("step {k}: read at logical {c} failed although page {} is valid", c / 1020));
+                    }
+                }
+                continue;
+            }
+            let bytes = unhex(got).unwrap_or_default();
+            if let Some(c) = cur {
+                let first = c / 1020;
+                let last = if bytes.is_empty() { first } else { (c + bytes.len() - 1) / 1020 };
+                for pg in first..=last.min(npages.saturating_sub(1)) {
+                    if !bytes.is_empty() && !valid[pg] {
+                        sink.fail("C07", "pages/data-from-corrupt-page", line, &format!("step {k}: {} bytes returned from page {pg} whose checksum does not match", bytes.len()));
+                    }
+                }
+                if c + bytes.len() <= logical.len() && bytes[..] != logical[c..c + bytes.len()] {
+                    sink.fail("C07", "pages/wrong-bytes", line, &format!("step {k}: returned bytes differ from the page payload"));
+                }
+                cur = Some(c + bytes.len());
+            }
+        }
     }
 }
 
@@ -281,6 +422,7 @@ pub fn oracle(sink: &mut Sink, line: &str) {
             run_pw(&t[1..], Some((sink, line)));
         }
         "pr" => oracle_pr(sink, line),
+        "dm" => oracle_dm(sink, line),
         "crc" => {
             sink.oracle_evals += 1;
             let d = unhex(t[1]).unwrap();
@@ -546,6 +688,125 @@ pub fn generate(sink: &mut Sink, seed: u64, thorough: bool) {
         let line = format!("pr {ps} {} s0 r8 x4", hex(&device));
         let out = exec(&line);
         sink.case(line, out, false);
+    }
+    // 3b. damage: altered pages under read histories (C07)
+    let mut dm_case = |sink: &mut Sink, rng: &mut Rng, pages: usize, seed: usize, alter: Vec<(usize, u8)>, tag: &str| {
+        let spec = if alter.is_empty() { "-".to_string() } else { alter.iter().map(|(p, m)| format!("{p}:{m:02x}")).collect::<Vec<_>>().join(",") };
+        let mut ops: Vec<String> = vec![];
+        // visit every page once, then random ops, revisit after failures
+        for pg in 0..pages {
+            ops.push(format!("s{}", pg * 1024 + rng.below(1020) as usize));
+            ops.push(format!("r{}", 1 + rng.below(40)));
+        }
+        for _ in 0..rng.below(8) {
+            match rng.below(5) {
+                0 | 1 => ops.push(format!("s{}", rng.below((pages * 1024) as u64))),
+                2 => ops.push(format!("x{}", rng.below(2200))),
+                3 => ops.push("a".into()),
+                _ => ops.push(format!("r{}", rng.below(1500))),
+            }
+        }
+        let line = format!("dm {pages} {seed} {spec} {}", ops.join(" "));
+        let out = exec(&line);
+        oracle(sink, &line);
+        sink.stat(tag);
+        sink.case(line, out, !alter.is_empty());
+    };
+    // exhaustive single-bit flips of one page (every bit of payload and checksum)
+    {
+        let pages = 2usize;
+        let seed = rng.below(250) as usize;
+        let stride = if thorough { 1 } else { 5 };
+        let mut bit = (seed % stride) as usize;
+        while bit < 8192 {
+            dm_case(sink, &mut rng, pages, seed, vec![(1024 + bit / 8, 1u8 << (bit % 8))], "dm_single_bit");
+            bit += stride;
+        }
+    }
+    let ndm = if thorough { 6000 } else { 700 };
+    for i in 0..ndm {
+        let pages = 1 + rng.below(3) as usize;
+        let seed = rng.below(250) as usize;
+        let pg = rng.below(pages as u64) as usize;
+        let mut alter: Vec<(usize, u8)> = vec![];
+        let tag;
+        match i % 7 {
+            0 => {
+                tag = "dm_two_bits";
+                let a = rng.below(8192) as usize;
+                let mut b = rng.below(8192) as usize;
+                if b == a {
+                    b = (a + 1) % 8192;
+                }
+                for x in [a, b] {
+                    alter.push((pg * 1024 + x / 8, 1u8 << (x % 8)));
+                }
+            }
+            1 => {
+                tag = "dm_three_bits";
+                let mut xs: Vec<usize> = vec![];
+                while xs.len() < 3 {
+                    let x = rng.below(8192) as usize;
+                    if !xs.contains(&x) {
+                        xs.push(x);
+                    }
+                }
+                for x in xs {
+                    alter.push((pg * 1024 + x / 8, 1u8 << (x % 8)));
+                }
+            }
+            2 | 3 => {
+                // burst of <= 32 bits in LSB-first order, anywhere (payload, checksum, straddling)
+                tag = "dm_burst";
+                let len = 2 + rng.below(31) as usize;
+                let start = match rng.below(4) {
+                    0 => 8160 - rng.below(40) as usize,            // around the payload end
+                    1 => 8160 + rng.below(32 - len.min(31) as u64 + 1) as usize, // inside the checksum
+                    _ => rng.below((8192 - len) as u64) as usize,
+                };
+                let start = start.min(8192 - len);
+                let pattern = rng.next() | 1 | (1u64 << (len - 1));
+                for j in 0..len {
+                    if (pattern >> j) & 1 == 1 {
+                        let x = start + j;
+                        alter.push((pg * 1024 + x / 8, 1u8 << (x % 8)));
+                    }
+                }
+            }
+            4 => {
+                tag = "dm_overwrite";
+                let n = 1 + rng.below(64) as usize;
+                let at = rng.below((1024 - n) as u64) as usize;
+                for j in 0..n {
+                    let m = rng.next() as u8;
+                    if m != 0 {
+                        alter.push((pg * 1024 + at + j, m));
+                    }
+                }
+            }
+            5 => {
+                tag = "dm_two_pages";
+                for q in 0..pages {
+                    alter.push((q * 1024 + rng.below(1024) as usize, 1u8 << rng.below(8)));
+                }
+            }
+            _ => {
+                tag = "dm_unaltered";
+            }
+        }
+        // merge duplicate positions
+        let mut merged: std::collections::BTreeMap<usize, u8> = Default::default();
+        for (p, m) in alter {
+            *merged.entry(p).or_insert(0) ^= m;
+        }
+        let alter: Vec<(usize, u8)> = merged.into_iter().filter(|(_, m)| *m != 0).collect();
+        dm_case(sink, &mut rng, pages, seed, alter, tag);
+    }
+    // the straddling-burst witness of the big-endian checksum (format-level finding), on an
+    // all-zero-tail page: payload tail 00 c0 2e 8d 5e and first checksum byte differ within 32 bits
+    for pg in 0..2usize {
+        let b = pg * 1024;
+        dm_case(sink, &mut rng, 2, 7, vec![(b + 1016, 0xc0), (b + 1017, 0x2e), (b + 1018, 0x8d), (b + 1019, 0x5e), (b + 1020, 0x37)], "dm_straddling_witness");
     }
     // 4. CRC values
     for i in 0..(if thorough { 2000 } else { 300 }) {
